@@ -103,8 +103,14 @@ def run_routes(ctx, d, reader, n, spikes, nsw, fk, sdtype, tag='', list_channels
             fwd = T.get_spike_waveforms(ids, cids, spike_waveforms=store, n_samples_waveforms=nsw)
             rev = T.get_spike_waveforms(ids[::-1], np.asarray(cids), spike_waveforms=store,
                                         n_samples_waveforms=nsw)
+            # a query in a shuffled order (with cycles of every length), un-permuted afterwards
+            perm = np.random.RandomState(ns * 7 + len(cids)).permutation(ns)
+            shuf = T.get_spike_waveforms(ids[perm], cids, spike_waveforms=store, n_samples_waveforms=nsw)
+            unshuf = np.empty_like(shuf)
+            unshuf[perm] = shuf
             ok = np.array_equal(fwd, rev[::-1])
             obs['lookups'].append([cids, decode(fwd, factor) if ok else 'order-dependent'])
+            obs.setdefault('lookups_shuffled', []).append([cids, decode(unshuf, factor)])
     return obs
 
 
@@ -124,7 +130,8 @@ def _compare(ctx, case, k, d):
     ok = (obs['extract'] == case['windows'] and obs['chunks'] == case['chunks'] and
           obs['appended'] == exp_batches and 'load_error' not in obs and
           obs.get('shape') == [ns, nsw, 2] and obs.get('dtype') == case['decl']['dtype'] and
-          obs.get('loaded') == case['windows'] and got_lookups == exp_lookups)
+          obs.get('loaded') == case['windows'] and got_lookups == exp_lookups and
+          sorted(obs.get('lookups_shuffled', []), key=lambda x: repr(x[0])) == exp_lookups)
     if not ok:
         key = 'route'
         ctx.violation(key, 'waveform routes differ from the specification (n=%d chunks=%r spikes=%r/%s '
@@ -199,7 +206,8 @@ def _random_records(ctx, count):
                 id=rid, n=n, chunks=obs['chunks'], spikes=spikes, nsw=nsw, dt=dt, fk=fk,
                 batches=batches, loaded=[] if bad else obs['loaded'],
                 declOk=(not bad) and obs.get('shape') == [ns_all, nsw, 2] and obs.get('dtype') == 'float64',
-                extract=[] if bad else obs['extract']))
+                extract=[] if bad else obs['extract'],
+                lookups=[] if bad else obs.get('lookups_shuffled', [])))
     return recs
 
 
